@@ -831,6 +831,53 @@ func runC17(t *testing.T, seed int64, n int, out *Out) {
 		}
 	}
 
+	// ---- a message gated by a governance-maintained LIST of senders (MsgCreatePool: amm Params.AllowedPoolCreators): a sender that
+	// is on no list must be refused - with the default list, and after governance has stored params in which the list is EMPTY
+	// (MsgUpdateParams replaces the whole struct and validation does not look at the list, so an update that only means to change
+	// a fee leaves it empty): an empty list admits nobody
+	{
+		oldSetup := p.setup
+		for _, variant := range []string{"defaultList", "emptyList"} {
+			variant := variant
+			p.setup = func(w *World, std *Std) string {
+				if oldSetup != nil {
+					if why := oldSetup(w, std); why != "" {
+						return why
+					}
+				}
+				if variant == "emptyList" {
+					params := w.App.AmmKeeper.GetParams(w.Ctx())
+					params.AllowedPoolCreators = nil
+					if !govApply(w, &ammtypes.MsgUpdateParams{Authority: w.Gov, Params: &params}) {
+						return "governance update of amm params with an empty creator list was refused"
+					}
+					if r := w.Block(c17Step, nil); r.Err != nil || r.Panicked {
+						return "block after the params update failed"
+					}
+				}
+				return ""
+			}
+			p.boot()
+			fr := p.A.Accts[5]
+			assets := []ammtypes.PoolAsset{
+				{Token: sdk.NewCoin("uatom", math.NewInt(1_000_000)), Weight: math.NewInt(10), ExternalLiquidityRatio: math.LegacyNewDec(2)},
+				{Token: sdk.NewCoin("uusdc", math.NewInt(5_000_000)), Weight: math.NewInt(10), ExternalLiquidityRatio: math.LegacyNewDec(2)},
+			}
+			nm := &ammtypes.MsgCreatePool{Sender: fr.Addr.String(), PoolParams: ammtypes.PoolParams{UseOracle: false, SwapFee: D("0.002"), FeeDenom: "uusdc"}, PoolAssets: assets}
+			r := p.probe(TxReq{Signer: fr, Msgs: []sdk.Msg{nm}})
+			out.Line(J{"t": "c17.case", "id": 0, "kind": "existing", "module": "amm", "msg": "MsgCreatePool", "url": sdk.MsgTypeURL(nm), "field": "Sender", "variant": "listGated/" + variant,
+				"signerKind": "fresh", "signer": fr.Addr.String(), "fieldValue": fr.Addr.String(), "gov": p.A.Gov, "code": r.Code, "log": clip(r.Log, 220),
+				"changed": r.Changed, "vb": c17ValidateBasic(nm), "blockErr": r.BlockErr, "body": c17MsgJSON(p.A, nm), "nontrivial": true})
+			if r.Code == 0 {
+				stats["listGated/"+variant+"/ACCEPTED"]++
+			} else {
+				stats["listGated/"+variant+"/refused"]++
+			}
+		}
+		p.setup = oldSetup
+		p.boot()
+	}
+
 	// ---- part 2: owner-scoped messages, one fresh pair of worlds per message type
 	for i, sc := range c17OwnedTable {
 		sc := sc
